@@ -234,6 +234,13 @@ impl PathParser {
                 self.update_position(self.start_pos.ok_or_else(|| {
                     SvgdxError::InvalidData("Cannot 'z' without start position".to_owned())
                 })?);
+                // closepath takes no arguments, so must be followed by a command
+                // (or the end of the data); anything else would never be consumed.
+                if !self.tokens.at_end() && !self.tokens.at_command()? {
+                    return Err(SvgdxError::InvalidData(
+                        "Unexpected data after closepath".to_string(),
+                    ));
+                }
             }
             'C' => {
                 let _cp1 = self.tokens.read_coord()?; // control point 1
